@@ -32,6 +32,10 @@ fn ol_bint_zero<const N: usize>() -> (r: BInt<N>)
     ensures iv(r) == 0
 { BInt::<N>::ZERO }
 #[verifier::external_body]
+fn ol_buint_zero<const N: usize>() -> (r: BUint<N>)
+    ensures uv(r) == 0
+{ BUint::<N>::ZERO }
+#[verifier::external_body]
 fn ol_buint_one<const N: usize>() -> (r: BUint<N>)
     ensures N >= 1 ==> uv(r) == 1
 { BUint::<N>::ONE }
